@@ -27,8 +27,16 @@ class AsyncioRunner(BaseRunner):
         self.asyncio_loop.call_soon_threadsafe(self._setup_payload, payload)
 
     def run_payload(self, payload: Callable[[], Coroutine]):
-        future = asyncio.run_coroutine_threadsafe(payload(), self.asyncio_loop)
+        # call the payload inside the event loop, as for adopted payloads: anything
+        # it does before handing out its coroutine must not run in the caller's thread
+        future = asyncio.run_coroutine_threadsafe(
+            self._call_payload(payload), self.asyncio_loop
+        )
         return future.result()
+
+    @staticmethod
+    async def _call_payload(payload: Callable[[], Coroutine]):
+        return await payload()
 
     def _setup_payload(self, payload: Callable[[], Awaitable]):
         task = self.asyncio_loop.create_task(self._monitor_payload(payload))
